@@ -24,7 +24,7 @@ NUL = tm.mk_str("\0")
 STRM = tm.mk_bytes(b"\0\1")   # marker of a str word
 BYTM = tm.mk_bytes(b"\0\0")   # marker of a bytes word
 NONM = tm.mk_bytes(b"\0\2")   # marker of None
-OVR_NAME_MARKER = STRM        # marker that begins an override pair (follows the real encoding)
+OVR_NAME_MARKER = BYTM        # marker that begins an override pair (override names are bytes words)
 
 
 def var(name, sort=STR):
